@@ -213,13 +213,13 @@ def pulse(*args):
         first = ' self.starttime '
 
     if interval == None:
-        return '('+str(volume) + ' /self.dt if ' + str(first) + ' <= t else 0)'
+        return '(('+str(volume) + ') /self.dt if (' + str(first) + ') <= t else 0)'
 
     if int(interval) == 0:
-        return '('+ str(volume) + ' /self.dt if ' + str(first) + ' == t else 0)'
+        return '(('+ str(volume) + ') /self.dt if (' + str(first) + ') == t else 0)'
 
-    return '('+str(volume) + '/ self.dt if ' + str(first) + ' <= t and ((t -' + str(first) + ') % ' + str(
-        interval) + ') == 0 else 0)'
+    return '(('+str(volume) + ')/ self.dt if (' + str(first) + ') <= t and ((t -(' + str(first) + ')) % (' + str(
+        interval) + ')) == 0 else 0)'
 
 
 def derivn_(*args):
@@ -455,7 +455,7 @@ def combinations_(*args):
     n = parseExpression(args[0])
     r = parseExpression(args[1])
 
-    return '(math.factorial({}) / (math.factorial({}) * math.factorial({}-{})))'.format(n,r,n,r)
+    return '(math.factorial({}) / (math.factorial({}) * math.factorial(({})-({}))))'.format(n,r,n,r)
 
 def binomial_(*args):
     args = remove_nesting(args)
@@ -489,7 +489,7 @@ def weibull_(*args):
         seed = parseExpression(args[2])
         return '(self.weibull_with_seed( {}, {}, {}, t) )'.format(shape,scale,seed)
 
-    return '(np.random.weibull({}) * {} )'.format(shape,scale)
+    return '(np.random.weibull({}) * ({}) )'.format(shape,scale)
 
 
 def pareto_(*args):
@@ -505,9 +505,9 @@ def pareto_(*args):
 
     if len(args) > 2:
         seed = parseExpression(args[2])
-        return '(np.nan if {} == 0 else self.pareto_with_seed( {}, {}, {}, t) )'.format(scale,shape,scale,seed)
+        return '(np.nan if ({}) == 0 else self.pareto_with_seed( {}, {}, {}, t) )'.format(scale,shape,scale,seed)
 
-    return '(np.nan if ({} == 0) else (np.random.pareto({}) * {} ) )'.format(scale,shape,scale)
+    return '(np.nan if (({}) == 0) else (np.random.pareto({}) * ({}) ) )'.format(scale,shape,scale)
 
 def exprnd_(*args):
     args = remove_nesting(args)
@@ -616,7 +616,7 @@ def step_(*args):
     height = parseExpression(args[0])
     time = parseExpression(args[1])
 
-    return "(0 if t < " + str(time) + " else " + str(height) + ")"
+    return "(0 if t < (" + str(time) + ") else " + str(height) + ")"
 
 def safediv_(*args):
     args = remove_nesting(args)
@@ -626,10 +626,10 @@ def safediv_(*args):
     onzero = None if len(args) ==2 else parseExpression(args[2])
 
     if onzero is not None:
-        return "(( "+ str(onzero) + ")" + ' if (' + str(denominator) + ') == 0 else (' + str(nominator) + ' / ' + str(denominator) + "))"
+        return "(( "+ str(onzero) + ")" + ' if (' + str(denominator) + ') == 0 else ((' + str(nominator) + ') / (' + str(denominator) + ")))"
     else:
-        return "((0)" + ' if (' + str(denominator) + ') == 0 else (' + str(nominator) + ' / ' + str(
-            denominator) + "))"
+        return "((0)" +  ' if (' + str(denominator) + ') == 0 else ((' + str(nominator) + ') / (' + str(
+            denominator) + ")))"
 
 def history_(*args):
     args = remove_nesting(args)
@@ -702,7 +702,7 @@ def percent_(*args):
             elem.remove(",")
         except:
             pass
-    return "({}*100)".format(parseExpression(args[0]))
+    return "(({})*100)".format(parseExpression(args[0]))
 
 def counter_(*args):
     args = remove_nesting(args)
@@ -728,7 +728,7 @@ def pmt_(*args):
     fv = parseExpression(args[3])
 
     if fv == "0" or fv == 0:
-        return "( -{} * ( ( 1+ {})**{}*{}) / ( ( 1+{})**{}-1) ) ".format(C,p,n,p,p,n)
+        return "( -({}) * ( ( 1+ ({}))**({})*({})) / ( ( 1+({}))**({})-1) ) ".format(C,p,n,p,p,n)
     print("PMT with Future Value argument not yet supported!")
     return "0"
 
@@ -740,7 +740,7 @@ def fv_(*args):
     pv = parseExpression(args[3])
 
     if pv == "0" or pv == 0:
-        return "(-sum([ {}* (1 + {} ) **t for t in range(0, int( {}) )]) )".format(pmt,p,n)
+        return "(-sum([ ({})* (1 + ({}) ) **t for t in range(0, int( {}) )]) )".format(pmt,p,n)
     print("FV with Present Value argument not yet supported!")
     return "0"
 
@@ -752,7 +752,7 @@ def pv_(*args):
     fv = parseExpression(args[3])
 
     if fv == "0" or fv == 0:
-        return "(- ({} * ( 1 - (( 1+{})**(-{}))) / {}))".format(pmt, p, n , p)
+        return "(- (({}) * ( 1 - (( 1+({}))**(-({})))) / ({})))".format(pmt, p, n , p)
 
     print("PV with Future Value argument not yet supported!")
     return "0"
@@ -883,15 +883,15 @@ builtins = {
 
     'rootn' : lambda *args: "( self.rootn({}, {}) )".format(parseExpression(remove_nesting(args)[0]) ,parseExpression(remove_nesting(args)[1] )),
 
-    'sqrt': lambda *args: "({} ** 0.5 )".format(parseExpression(remove_nesting(args))),
+    'sqrt': lambda *args: "(({}) ** 0.5 )".format(parseExpression(remove_nesting(args))),
 
     'log10': lambda *args: "(np.log10({}))".format(parseExpression(remove_nesting(args))),
 
     'ln': lambda *args: "(np.log({}))".format(parseExpression(remove_nesting(args))),
 
-    'sinwave' : lambda *args : "( np.sin(2*np.pi / {} * (t-self.starttime) ) * {} )".format(parseExpression(remove_nesting(args)[1]),parseExpression(remove_nesting(args)[0])),
+    'sinwave' : lambda *args : "( np.sin(2*np.pi / ({}) * (t-self.starttime) ) * ({}) )".format(parseExpression(remove_nesting(args)[1]),parseExpression(remove_nesting(args)[0])),
 
-    'coswave': lambda *args: "( np.cos(2*np.pi / {} * (t-self.starttime) ) * {} )".format(
+    'coswave': lambda *args: "( np.cos(2*np.pi / ({}) * (t-self.starttime) ) * ({}) )".format(
         parseExpression(remove_nesting(args)[1]), parseExpression(remove_nesting(args)[0])),
 
     # Logical builtins
@@ -1004,12 +1004,12 @@ builtins = {
 
     'lookupinv' : lambda *args : "( self.lookupinv(\"{}\", {}) )".format(remove_nesting(args)[0]["name"],parseExpression(remove_nesting(args)[1])),
 
-    'lookuparea' : lambda *args : "(np.trapezoid([LERP(  i , self.points[\"{}\"]) for i in np.arange(self.starttime,{} + self.dt,self.dt)], dx=self.dt)) ".format(remove_nesting(args)[0]["name"],parseExpression(remove_nesting(args)[1])),
+    'lookuparea' : lambda *args : "(np.trapezoid([LERP(  i , self.points[\"{}\"]) for i in np.arange(self.starttime,({}) + self.dt,self.dt)], dx=self.dt)) ".format(remove_nesting(args)[0]["name"],parseExpression(remove_nesting(args)[1])),
 
     'ramp' : lambda *args : ramp_(args),
 
     'inf' : lambda *args : "np.inf",
 
-    'cgrowth' : lambda *args : " ( self.cgrowth( {} / 100) )".format(parseExpression(remove_nesting(args)[0])),
+    'cgrowth' : lambda *args : " ( self.cgrowth( ({}) / 100) )".format(parseExpression(remove_nesting(args)[0])),
 
 }
